@@ -5,7 +5,11 @@
    inside notify_clones for room in a clone's command queue (capacity 16);
    blocked publishers retry in the order in which they blocked (tokio's mpsc
    hands freed capacity to waiters first-come first-served). The scheduling
-   policy lives here (trusted glue); the theorems hold for every action list. *)
+   policy lives here (trusted glue); the theorems hold for every action list.
+   The state is the BOUNDED gate (GateModel.bst / bstep): the root's command channel has 16 places, a
+   sender that finds it full waits and lands (BLand) as soon as a place is free. Ops H / R: the unit is
+   busy elsewhere, its process() is not polled (no ARoot) / it gets back to its gate; op `o l`: the
+   connected link l is dropped (BDropLink), its component keeps the target and may link again. *)
 open Conv
 open GateModel
 
@@ -17,8 +21,20 @@ let run_with (follow : bool) (guard : bool) (line : string) : string =
   let cap = match ops with ("Q" :: k :: _) :: _ -> max 1 (int_of_string k) | _ -> 2 in
   let cf = { cf_cap = n_of_int cap; cf_follow = follow; cf_guard = guard } in
   let qlen = int_of_n cmd_queue_len in
+  let b = ref binit in
   let s = ref init in
-  let act a = s := step cf !s a in
+  let nat_int = int_of_nat in
+  (* waiting senders are tasks: polled at every settling, they take the places that are free *)
+  let senders_land () =
+    let go = ref true in
+    while !go do
+      let k = nat_int !b.b_in in
+      b := bstep cf !b BLand;
+      if nat_int !b.b_in = k then go := false
+    done in
+  let bact a = b := bstep cf !b a; senders_land (); s := !b.b_st in
+  let act a = bact (BAct a) in
+  let hold = ref false         (* op H: the unit does not poll process() of the root gate *) in
   let blocked = ref [] (* publishers inside update_data, oldest block first *) in
   let gone = Array.make nlinks false in
   let tgt_alive = Array.make nlinks false and slots = Array.make nlinks [] in
@@ -61,7 +77,7 @@ let run_with (follow : bool) (guard : bool) (line : string) : string =
     | NSend (c, _) :: _ -> let k = !s.clones c in k.c_alive && Stdlib.List.length k.c_q >= qlen
     | _ -> false in
   let root_drain () =
-    while root_running () && (!s.rnote <> [] || !s.rootq <> []) && not (root_waits ()) do act ARoot done;
+    while not !hold && root_running () && (!s.rnote <> [] || !s.rootq <> []) && not (root_waits ()) do act ARoot done;
     if !drop_pending && !s.root_term && not !s.root_dropped then (act ARootDrop; drop_pending := false);
     (* a connect() in flight ends in Gone when the gate goes away; a new slot of a direct link; a
        connect() that has its answer returns (its task is polled) unless the harness holds the future *)
@@ -76,7 +92,9 @@ let run_with (follow : bool) (guard : bool) (line : string) : string =
     done;
     pubs_settle () in
   (* commands the root has not got to (it is waiting, or has terminated while the gate object lives) *)
-  let stuck () = not !s.root_dropped && !s.rootq <> [] in
+  let stuck () = not !hold && not !s.root_dropped && !s.rootq <> [] in
+  (* the unit is busy elsewhere and the 16 places of the command channel are taken: a sender would wait *)
+  let full () = !hold && nat_int !b.b_in >= qlen in
   let closing () = !term_req && not !s.root_dropped in
   (* ONE process() call of clone c, or (all) until its queue is empty; the root only runs while the
      clone waits on an empty queue *)
@@ -120,16 +138,18 @@ let run_with (follow : bool) (guard : bool) (line : string) : string =
     else if pending l then begin
       if late then "skip" else (act (AAbandon (n_of_int l)); root_drain (); "cut")
     end
-    else if stuck () then "skip" else if gone.(l) then "gone" else begin
+    else if stuck () || (late && !hold) then "skip" else if gone.(l) then "gone" else begin
       if l mod 2 = 1 && not tgt_alive.(l) then (tgt_alive.(l) <- true; slots.(l) <- []);
-      if !s.root_dropped then (gone.(l) <- true; "gone") else begin
+      if !s.root_dropped then (gone.(l) <- true; "gone")
+      else if full () then "ok"   (* the send waits for room and is cancelled with the future: no command was ever sent *)
+      else begin
         act (ASendSub (n_of_int l));
         if late then (held := l; root_drain (); held := -1);
         act (AAbandon (n_of_int l)); root_drain (); "ok"
       end
     end in
   let link_cmd l what =
-    if not (conn l) || closing () || stuck () then "skip"
+    if not (conn l) || closing () || stuck () || full () then "skip"
     else if what = "s" && susp l then "skip"
     else if what = "r" && not (susp l) then "skip"
     else begin
@@ -139,6 +159,16 @@ let run_with (follow : bool) (guard : bool) (line : string) : string =
        | _ -> act (ASendSusp (n_of_int l, false)));
       root_drain (); "ok"
     end in
+  (* Drop for Link: the connected link object goes (a queue link's receiver with it), its Unsubscribe is sent
+     by a task that waits for room; the component keeps its direct-update target and gets a new link *)
+  let drop_link l =
+    if not (conn l) || closing () || stuck () then "skip"
+    else (bact (BDropLink (n_of_int l)); root_drain (); "ok") in
+  let hold_root () =
+    if !hold || not !root_handle || !term_req || stuck () || not (root_running ()) then "skip"
+    else (hold := true; "ok") in
+  let release_root () =
+    if not !hold then "skip" else (hold := false; root_drain (); "ok") in
   (* the component behind direct link l drops its direct-update target; the link stays subscribed *)
   let target_drop l =
     if l mod 2 = 0 || not tgt_alive.(l) || pending l then "skip" else begin
@@ -186,24 +216,28 @@ let run_with (follow : bool) (guard : bool) (line : string) : string =
     | "c" :: _ when k < nlinks -> emit ("c:" ^ connect k)
     | ("d" | "s" | "r" as w) :: _ when k < nlinks -> emit (w ^ ":" ^ link_cmd k w)
     | "t" :: _ when k < nlinks -> emit ("t:" ^ target_drop k)
+    | "o" :: _ when k < nlinks -> emit ("o:" ^ drop_link k)
+    | "H" :: _ -> emit ("H:" ^ hold_root ())
+    | "R" :: _ -> emit ("R:" ^ release_root ())
     | ("a" | "b" as w) :: _ when k < nlinks -> emit (w ^ ":" ^ abandon k (w = "b"))
     | "q" :: _ when k < nlinks -> emit ("q:" ^ query k)
     | "u" :: _ -> emit ("u:" ^ update k)
     | "M" :: _ -> emit (Printf.sprintf "M:%d/%d" (int_of_n !s.m_upd) (int_of_n !s.m_drop))
     | "k" :: _ ->
-        if not !root_handle || !term_req || stuck () || nclone () > maxclones then emit "k:skip"
+        if not !root_handle || !term_req || stuck () || !hold || nclone () > maxclones then emit "k:skip"
         else (act AClone; root_drain (); emit ("k:" ^ string_of_int (nclone () - 1)))
     | "x" :: _ ->
-        if k = 0 || k >= nclone () || not (calive k) || not (idle k) then emit "x:skip"
+        if k = 0 || k >= nclone () || not (calive k) || not (idle k) || !hold then emit "x:skip"
         else (act (ACloneDrop (n_of_int k)); root_drain (); emit "x:ok")
     | ("F" | "D" as w) :: _ ->
         if k = 0 || k >= nclone () then emit (w ^ ":skip") else emit (w ^ ":" ^ clone_process k (w = "D"))
     | ("T" | "Z" as w) :: _ ->
-        if not !root_handle || !term_req || not (idle 0) then emit (w ^ ":skip") else emit (w ^ ":" ^ terminate (w = "T"))
+        if not !root_handle || !term_req || not (idle 0) || !hold then emit (w ^ ":skip") else emit (w ^ ":" ^ terminate (w = "T"))
     | "X" :: _ ->
-        if not !root_handle || not (idle 0) then emit "X:skip" else emit ("X:" ^ drop_root ())
+        if not !root_handle || not (idle 0) || !hold then emit "X:skip" else emit ("X:" ^ drop_root ())
     | _ -> emit "?") ops;
   (* final phase *)
+  ignore (release_root ());
   let progress = ref true in
   while !progress do
     progress := false;
